@@ -215,6 +215,10 @@ func (a *Activation) stdlibCall(st *State, callee *ssa.Function, cc *ssa.CallCom
 		r := g.fresh("erris", SBool)
 		g.assertLine(and(eq(r, app(SBool, "err_is", args[0].T, args[1].T)), implies(eq(args[0].T, nilIface), eq(r, eq(args[1].T, nilIface))), implies(eq(args[0].T, args[1].T), r)), r)
 		return Val{T: r}, true
+	case "encoding/json.Marshal", "encoding/json.MarshalIndent":
+		mark()
+		g.trusted["encoding/json.Marshal: reads its argument, writes nothing, result uninterpreted"] = true
+		return a.havocValue(st, resT, "json"), true
 	case "fmt.Sprintf", "fmt.Sprint", "fmt.Sprintln":
 		mark()
 		return a.havocValue(st, resT, "sprintf"), true
